@@ -114,7 +114,8 @@ def parse_facts(parts):
             d = dict(x.split("=", 1) for x in w[2:])
             fns[w[1]] = dict(name=w[1], req=[x for x in d["req"].split(",") if x],
                              outs=dict((int(x.split(":")[0]), x.split(":")[1]) for x in d["outs"].split(",") if x),
-                             defaults=int(d["defaults"]), params=int(d["params"]), method=d["method"] == "1", called=d["called"] == "1")
+                             defaults=int(d["defaults"]), params=int(d["params"]), method=d["method"] == "1", called=d["called"] == "1",
+                             shadow=[x for x in d.get("shadow", "").split(",") if x])
     return threaded, fns
 
 
@@ -179,6 +180,13 @@ def check(case, impl, repo=None):
     M = drop_metal(strip_attributes(toks(mtext.replace("\\n", "\n"))))
     if "helper" in M or "register" in H or "SV_Position" in H or "user" in M or "numthreads" in H:
         return None      # resources, semantics and stage interfaces are outside the executable subset
+    # a parameter added for a threaded global must not take the name of something else the function body can name
+    for name, f in sorted(fns.items()):
+        for sh in f["shadow"]:
+            kind, n = sh.split(":", 1)
+            if kind == "l":
+                return "the Metal text is not the HLSL text under the threading / reference rules: %s receives the global `%s` as a parameter and has a parameter or local of the same name" % (name, n)
+            return "the Metal text is not the HLSL text under the threading / reference rules: the method %s receives the global `%s` as a parameter, which hides the struct member `%s` in its body" % (name, n, n)
     H, removed = remove_threaded_globals(H, threaded_leaf)
     for g in removed:
         # the Metal text must not declare it at namespace level either
